@@ -110,11 +110,17 @@ def tree_to_sx(tree):
         name = str(ch[0])
         args = [tree_to_sx(c) for c in ch[1:]]
         if name == "Mod":
+            if len(args) != 2:
+                raise ValueError("arity of Mod")
             return ["mod", args[0], args[1]]
+        if len(args) != 1:
+            raise ValueError("arity of " + name)     # e.g. log(x, base): outside the modelled language
         return ["fn", name, args[0]]
     if d == "logicalfunc":
         name = str(ch[0])
         if name == "Conditional":
+            if len(ch) != 4:
+                raise ValueError("arity of Conditional")
             return ["if", tree_to_sx(ch[1]), tree_to_sx(ch[2]), tree_to_sx(ch[3])]
         if name == "ContinuousConditional":
             rel_op, a1, a2 = ch[1].children
@@ -128,8 +134,12 @@ def tree_to_sx(tree):
             return ["+", ["*", tv, H], ["*", fv, ["-", one, H]]]
         args = [tree_to_sx(c) for c in ch[1:]]
         if name in ("Lt", "Gt", "Le", "Ge", "Eq"):
+            if len(args) != 2:
+                raise ValueError("arity of " + name)
             return ["rel", name.lower(), args[0], args[1]]
         if name == "Not":
+            if len(args) != 1:
+                raise ValueError("arity of Not")
             return ["not", args[0]]
         if name in ("And", "Or"):
             acc = args[0]
@@ -386,3 +396,70 @@ def array_unsafe_constructs(code: str) -> list:
             except SkeletonError as ex:
                 bad.append((fd.name, pyast.unparse(st)[:120], str(ex)))
     return bad
+
+
+# --------------------------------------------------------------------------------------------
+# expressions of a text as token lists (for the parser mirror Parse.v)
+# --------------------------------------------------------------------------------------------
+import re as _re
+
+_TOKEN_RE = _re.compile(r"\s*(?:(?P<num>(?:\d+\.\d*|\.\d+|\d+)(?:[eE][+-]?\d+)?)|(?P<id>[A-Za-z_]\w*)|(?P<op>\*\*|[-+*/(),]))")
+_OPS = {"+": "plus", "-": "minus", "*": "star", "/": "slash", "**": "pow", "(": "lp", ")": "rp", ",": "comma"}
+
+
+def tokenize_expression(s: str):
+    """token list of an expression text in the driver's encoding, or None if a character is outside the token alphabet"""
+    out = []
+    i = 0
+    s = s.rstrip()
+    while i < len(s):
+        m = _TOKEN_RE.match(s, i)
+        if not m or m.end() == i:
+            return None
+        if m.group("num") is not None:
+            t = m.group("num")
+            f = Fraction(t.replace("E", "e"))
+            out.append(["n", str(f.numerator), str(f.denominator), 1 if t.isdigit() else 0])
+        elif m.group("id") is not None:
+            out.append(["id", m.group("id")])
+        else:
+            out.append(_OPS[m.group("op")])
+        i = m.end()
+    return out
+
+
+_RAW_PARSER = None
+
+
+def expression_cases(text: str):
+    """[(where, expression text, tokens, expression the grammar assigns - as tree_to_sx reads Lark's tree)] for every
+    right-hand side and declared value of a text that Lark accepts; [] if it does not parse"""
+    import lark
+
+    global _RAW_PARSER
+    if _RAW_PARSER is None:
+        _RAW_PARSER = Parser(parser="lalr", propagate_positions=True)
+    try:
+        tree = _RAW_PARSER.parse(text)
+    except Exception:  # noqa: BLE001
+        return []
+    out = []
+
+    def walk(t):
+        if not isinstance(t, lark.Tree):
+            return
+        if t.data in ("assignment", "param", "scalarparam") and len(t.children) >= 2 and isinstance(t.children[1], lark.Tree):
+            e = t.children[1]
+            src = text[e.meta.start_pos:e.meta.end_pos]
+            try:
+                want = tree_to_sx(e)
+            except Exception:  # noqa: BLE001
+                want = None
+            toks = tokenize_expression(src)
+            if toks is not None:
+                out.append((str(t.children[0]), src, toks, want))
+            return
+        for c in t.children:
+            walk(c)
+    walk(tree)
+    return out
